@@ -678,6 +678,7 @@ impl LcdController {
                 "start_line": chip.state.start_line,
                 "page": chip.state.page,
                 "y_address": chip.state.y_address,
+                "busy": chip.state.busy,
                 "instruction_count": chip.instruction_count,
                 "data_write_count": chip.data_write_count,
                 "data_read_count": chip.data_read_count,
@@ -725,6 +726,7 @@ impl LcdController {
                     chip.state.page = meta.get("page").and_then(|v| v.as_u64()).unwrap_or(0) as u8;
                     chip.state.y_address =
                         meta.get("y_address").and_then(|v| v.as_u64()).unwrap_or(0) as u8;
+                    chip.state.busy = meta.get("busy").and_then(|v| v.as_bool()).unwrap_or(false);
                     chip.instruction_count = meta
                         .get("instruction_count")
                         .and_then(|v| v.as_u64())
